@@ -27,6 +27,20 @@ EXTRA_TARGETS = ["drv_c16"]
 SIZES = [(4, 3), (8, 6), (13, 9), (16, 8), (20, 12), (31, 17), (40, 24), (1, 1), (2, 5), (64, 2)]
 
 
+# threaded scenarios `thr W H B caps W2 H2 B2 mx my`: the framebuffer is replaced (and the old one freed)
+# while the client's output thread sits in its deferUpdateTime sleep with a modification pending
+THR_SCENARIOS = [
+    "thr 16 8 4 0 8 4 4 12 6",     # shrink, client without resize support, modification outside the new area
+    "thr 20 12 4 0 20 5 4 3 9",    # height only
+    "thr 16 8 4 0 5 3 2 14 7",     # shrink + depth change
+    "thr 16 8 1 0 5 3 4 14 7",     # 8 -> 32 bpp
+    "thr 12 6 2 0 20 10 4 1 1",    # grow + depth
+    "thr 16 8 4 1 8 4 4 12 6",     # NewFBSize client: size message first
+    "thr 16 8 4 2 8 4 2 12 6",     # ExtendedDesktopSize client
+    "thr 16 8 4 0 1 1 4 15 7",     # down to 1x1
+]
+
+
 def rect_in(rng, W, H, lo=1):
     x1 = rng.randint(0, W - lo)
     y1 = rng.randint(0, H - lo)
@@ -589,6 +603,31 @@ def run(ctx):
         if nbad >= 8:
             break
     scripts = scripts[:len(results)]
+    # --- threaded variant: replacement INSIDE the output thread's deferral (harness/c16_thr.c); direct oracle only
+    thr_runs = []
+    if not ctx.replay or True:
+        ht = ctx.harness("c16_thr")
+        thr_sc = THR_SCENARIOS if not ctx.replay else []
+        if ctx.replay:
+            thr_sc = [l for l in json.load(open(ctx.replay)).get("script", []) if l.startswith("thr ")]
+
+        def one_thr(sc):
+            rc, out, err = ctx.run_lines(ht, sc + "\n", timeout=TMO + 60)
+            bad = [l for l in out if l.startswith("!")]
+            f = None
+            if rc != 0:
+                f = {"kind": "crash", "what": "threaded resize: harness exit %d" % rc, "script": [sc],
+                     "impl": out[-6:], "detail": err[-2500:]}
+            elif bad:
+                f = {"kind": "oracle", "what": "C16 threaded resize oracle", "detail": bad[0], "script": [sc], "impl": out}
+            elif not any(l.startswith("thr msgs=") for l in out):
+                f = {"kind": "oracle", "what": "C16 threaded resize oracle", "detail": "no result line", "script": [sc], "impl": out}
+            return out, f
+        for sc, (out, f) in zip(thr_sc, common.pmap(one_thr, thr_sc, workers=4)):
+            thr_runs.append({"scenario": sc, "out": out[-1] if out else ""})
+            if f:
+                fails.append(f)
+    dist["threaded_scenarios"] = len(thr_runs)
     seen = set()
     for (script, name), (impl, model, fl) in zip(scripts, results):
         for f in fl:
@@ -648,9 +687,9 @@ def run(ctx):
         if len(samples) < 2 and not name:
             samples.append({"script": script.splitlines()[:70], "impl": impl[:70]})
     return {
-        "evaluations": len(scripts), "distinct_nontrivial": len(seen),
+        "evaluations": len(scripts) + len(thr_runs), "distinct_nontrivial": len(seen),
         "rule": "random histories over 1..3 clients (NewFBSize / ExtendedDesktopSize / both / neither, soft or X cursor, CopyRect, own true-colour pixel format 8/16/32 bpp or 8-bit colour map, scaled by 2..5) of draw/mark, multi-rectangle copies, incremental / non-incremental requests in old and new geometry (incl. out of range), updates, pointer events inside / outside the area, framebuffer replacements (grow / shrink / 1x1 / depth 8/16/24/32 / same size) with the old buffer freed at once, viewers that disappear (before their next update, or inside a truncated SetDesktopSize) and are reaped, application screen-layout hooks reporting 0..2047 screens or failing, the size-message emitters at every update-buffer boundary, SetDesktopSize with 0..255 screens and hook absent / returning 0..7 / resizing synchronously; non-trivial = distinct script with >= 1 replacement or SetDesktopSize in which a client received >= 1 size message",
-        "samples": samples, "distribution": dist, "failures": fails[:8],
+        "samples": samples + thr_runs[:2], "distribution": dist, "failures": fails[:8],
         "partial": ["threads: rfbNewFramebuffer's locking (sendMutex of every client, cursorMutex) is not modelled; the harness is single-threaded (C13 covers the lock discipline)",
                     "encodings other than Raw / CopyRect: region arithmetic and the size short-circuit precede encoding; per-encoding pixel exactness is C01",
                     "clients that keep a 24 bpp pixel format (not allowed by RFB; known C10 item) are not generated; colour-map clients are (BGR233 palette)",
